@@ -189,6 +189,35 @@ CHECKS.update({
         "technique": "exhaustive single-fault injection (LD_PRELOAD) + Coq proof of the id discipline",
         "category": "fault_enumeration",
     },
+    "C04": {
+        "text": "Machine-checked proof over an interleaving model of put / get / delete on the active data file at the granularity "
+                "at which the code's steps are visible to other threads (writer mutex, a record's bytes appearing in the file in "
+                "arbitrary increments, KeyDir publish and lookup, per-reader mapped lengths, the bounded reader pool, the remap rule "
+                "of LogReader::at): for EVERY schedule no thread panics, the history is linearizable (commit-point simulation into a "
+                "generic linearizability theorem), readers are conserved and no state deadlocks; the pinned remap rule is refuted by an "
+                "explicit schedule. Partial: merge and rollover are not in the interleaving model. The check forces 7 targeted "
+                "interleavings on the real threads by parking at verif schedule points (three of them are also run through the model "
+                "and the per-thread results compared), runs free stress with merges and rollovers, and decides every timed history "
+                "with a Wing-Gong-Lowe linearizability search; probes afterwards that reads are still served.",
+        "design_ref": "DESIGN.md section 8, C04",
+        "note": "Mutex, DashMap shard atomicity, ArrayQueue and mmap coherence are modelled, not verified. Merge/rollover concurrency "
+                "is covered by forced schedules and stress only. The window inside one BufWriter::write has no schedule point.",
+        "technique": "Coq proof over an interleaving LTS (safety, linearizability by simulation, deadlock freedom) + forced schedules "
+                     "and stress on real threads decided by a linearizability checker",
+    },
+    "C11": {
+        "text": "Machine-checked proof: generic commit-point linearizability theorem, instantiated for the store's interleaving model "
+                "with threads read as connections (one command in flight per connection); no GET can panic its blocking thread. "
+                "Partial: tokio scheduling is not modelled. The check runs the real server with 3-8 concurrent client connections "
+                "(SET/GET/DEL on 1-3 hot keys, merges and rollovers running), records client-side send/receive instants and replies, "
+                "and decides each history with the linearizability checker; two forced schedules (SET parked before publication while "
+                "a merge runs; two DELs of one key) have exact expected replies.",
+        "design_ref": "DESIGN.md section 8, C11",
+        "note": "Client-side timestamps are taken just before send and just after the full reply is read, so they contain the server-side "
+                "interval. Theorems are about the store-level model; the handler's reply is tied to the store result by C10.",
+        "technique": "Coq proof (commit-point linearizability, store LTS simulation) + multi-connection histories of the real server "
+                     "decided by a linearizability checker",
+    },
     "C19": {
         "text": "Machine-checked proof that in every reachable crash-free state each file's live/dead/dead-bytes counters equal "
                 "ground truth computed from the files and the index, that a counter row exists exactly for files holding "
